@@ -34,12 +34,13 @@ type c17Op struct {
 	path    int
 	content int
 	flag    int // spelling of the third argument: 0 literal, 1 variable, 2 comparison, 3 exists(path) where its value is the wanted one
+	path2   int // read-two: the second file
 	force   int // 0: helper / wrapping drawn at random; 1: direct and unwrapped; 2: through a helper function, unwrapped
 }
 
 func TestC17(t *testing.T) {
 	r, e := start(t, "C17",
-		"random histories (<= 12 operations quick, <= 30 thorough) of write(p,s), write(p,s,false), write(p,s,true) (the flag spelled as a literal, a variable, a comparison or exists(p) where that has the wanted value), read(p) (only where the model says p exists) and exists(p) over 2-4 paths drawn from {plain, sub-directory, blank, double blank, leading dash, ;, *, $, ', leading blank, &} and contents from {neutral, empty, edge blanks, blank runs, quotes, $, $(cmd), backquote, backslash, glob, -n, tab, shell metacharacters, #, embedded newline, !, %}; the whole history is one generated program (a third of the operations wrapped in a construct that runs them once: taken branch, else branch, one-pass loop, switch case, branch inside a loop), values literal or held in variables read from stdin, written plainly or as a call result, a parenthesised expression, a concatenation or a slice element, half the time executed inside a function with paths/contents as parameters; a third of the operations are performed by small helper functions (hwrite, hread, ...) called from the history instead of directly; a sixth of the steps are triples 'observe p (read/exists), a helper FUNCTION writes p, observe p again' in one straight-line block. Oracle: model map[path][]line: file bytes = lines joined by newline + newline, read = lines joined, exists = key present; the sandbox afterwards holds exactly the model's files. Non-trivial = append after overwrite after append on one path, or >= 2 paths with a non-plain path or content; distinct by history.",
+		"random histories (<= 12 operations quick, <= 30 thorough) of write(p,s), write(p,s,false), write(p,s,true) (the flag spelled as a literal, a variable, a comparison or exists(p) where that has the wanted value), read(p) (only where the model says p exists; also two reads in one statement: printed together, compared, concatenated) and exists(p) over 2-4 paths drawn from {plain, sub-directory, blank, double blank, leading dash, ;, *, $, ', leading blank, &} and contents from {neutral, empty, edge blanks, blank runs, quotes, $, $(cmd), backquote, backslash, glob, -n, tab, shell metacharacters, #, embedded newline, !, %}; the whole history is one generated program (a third of the operations wrapped in a construct that runs them once: taken branch, else branch, one-pass loop, switch case, branch inside a loop), values literal or held in variables read from stdin, written plainly or as a call result, a parenthesised expression, a concatenation or a slice element, half the time executed inside a function with paths/contents as parameters; a third of the operations are performed by small helper functions (hwrite, hread, ...) called from the history instead of directly; a sixth of the steps are triples 'observe p (read/exists), a helper FUNCTION writes p, observe p again' in one straight-line block. Oracle: model map[path][]line: file bytes = lines joined by newline + newline, read = lines joined, exists = key present; the sandbox afterwards holds exactly the model's files. Non-trivial = append after overwrite after append on one path, or >= 2 paths with a non-plain path or content; distinct by history.",
 		[]string{"reading a missing file is outside the statement (never generated)", "contents ending in a newline are not generated (read strips trailing newlines by definition)", "values containing $, backquote, double quote or backslash are supplied at run time through input(): as source literals they fall under the listed C08 finding"})
 	defer r.Flush()
 	maxOps := e.Pick(12, 30)
@@ -94,9 +95,24 @@ func TestC17(t *testing.T) {
 			kinds := []string{"write", "write", "append", "append", "overwrite-false", "exists"}
 			if _, ok := model[c17Paths[p].p]; ok {
 				kinds = append(kinds, "read", "read")
+				// two reads alive in one statement (the second path: any other existing file, else the same one)
+				kinds = append(kinds, "read-two")
 			}
 			k := kinds[gen.Uniform(0, len(kinds)-1).Draw(t, "op-kind")]
 			op := c17Op{kind: k, path: p, content: gen.Uniform(0, len(c17Contents)-1).Draw(t, "content"), flag: gen.Uniform(0, 3).Draw(t, "flag-spelling")}
+			if k == "read-two" {
+				op.path2 = p
+				existing := []int{}
+				for _, q := range pool {
+					if _, ok := model[c17Paths[q].p]; ok && q != p {
+						existing = append(existing, q)
+					}
+				}
+				if len(existing) > 0 {
+					op.path2 = existing[gen.Uniform(0, len(existing)-1).Draw(t, "second-path")]
+				}
+				op.flag = gen.Uniform(0, 2).Draw(t, "read-two-form")
+			}
 			ops = append(ops, op)
 			path := c17Paths[p].p
 			switch k {
@@ -245,6 +261,31 @@ func TestC17(t *testing.T) {
 					body.WriteString("print(\"<\" + read(" + pe + ") + \">\")\n")
 				}
 				expOut += "<" + strings.Join(cur[path], "\n") + ">\n"
+			case "read-two":
+				path2 := c17Paths[op.path2].p
+				pe2 := dress(&body, valueRef("p", op.path2, path2))
+				a, b := strings.Join(cur[path], "\n"), strings.Join(cur[path2], "\n")
+				rd := func(e string) string {
+					if via {
+						return "hread(" + e + ")"
+					}
+					return "read(" + e + ")"
+				}
+				switch op.flag {
+				case 0:
+					body.WriteString("print(" + rd(pe) + ", " + rd(pe2) + ")\n")
+					expOut += a + " " + b + "\n"
+				case 1:
+					body.WriteString("print(" + rd(pe) + " == " + rd(pe2) + ", " + rd(pe) + " != " + rd(pe2) + ")\n")
+					if a == b {
+						expOut += "1 0\n"
+					} else {
+						expOut += "0 1\n"
+					}
+				default:
+					body.WriteString("print(\"<\" + (" + rd(pe) + " + " + rd(pe2) + ") + \">\")\n")
+					expOut += "<" + a + b + ">\n"
+				}
 			case "exists":
 				if via {
 					body.WriteString("print(\"exists\", hexists(" + pe + "))\n")
@@ -294,7 +335,7 @@ func TestC17(t *testing.T) {
 				r.Class("op:exists-on-directory")
 				continue
 			}
-			if c17Paths[op.path].class != "plain" || (c17Contents[op.content].class != "neutral" && op.kind != "read" && op.kind != "exists") {
+			if c17Paths[op.path].class != "plain" || (c17Contents[op.content].class != "neutral" && op.kind != "read" && op.kind != "exists" && op.kind != "read-two") {
 				nonPlain = true
 			}
 			k := map[string]string{"write": "w", "overwrite-false": "w", "append": "a"}[op.kind]
@@ -308,7 +349,7 @@ func TestC17(t *testing.T) {
 			if op.kind == "append" || op.kind == "overwrite-false" {
 				r.Class(fmt.Sprintf("flag-spelling:%d", op.flag))
 			}
-			if op.kind != "read" && op.kind != "exists" {
+			if op.kind != "read" && op.kind != "exists" && op.kind != "read-two" {
 				r.Class("content:" + c17Contents[op.content].class)
 			}
 		}
@@ -334,7 +375,7 @@ func TestC17(t *testing.T) {
 				continue
 			}
 			pc[c17Paths[op.path].class] = true
-			if op.kind != "read" && op.kind != "exists" {
+			if op.kind != "read" && op.kind != "exists" && op.kind != "read-two" {
 				cc[c17Contents[op.content].class] = true
 			}
 		}
